@@ -3,6 +3,7 @@ import copy
 import json
 
 import gen
+import chainhist
 import vlib
 from vlib import Recorder, Report, b2l, call, exc_info
 
@@ -275,7 +276,8 @@ def run(tier):
     recs = drive(tier)
     mm = vlib.validate("Trace_Checks", recs)
     rep.apply_mismatches(recs, mm)
-    rep.cov["evaluations"] = len(recs)
+    nchain = chainhist.run_for(rep, "C16", tier)
+    rep.cov["evaluations"] = nchain + len(recs)
     rep.cov["traces_validated_against_impl"] = len(recs)
     rep.cov["catalogue"] = sorted({x["in"]["name"] for x in recs})
     rep.cov["accepted"] = sum(1 for x in recs if x["out"]["k"] == "ret")
